@@ -5,17 +5,21 @@ EXTENDS ParamOps, Json
 
 CONSTANTS Fam, VL, Chunk, NChunks
 
-ValChars == <<"a", "b", " ", "NL", "*", "U">>
+ValChars == <<"a", "b", " ", "NL", "*", "U">>      \* (family remx: values are over {a, b} up to VL + 1, see Values)
 ValSet == {ValChars[i] : i \in 1..Len(ValChars)}
 Seqs(S, n) == UNION {[1..m -> S] : m \in 0..n}
 CIdx(c) == CHOOSE i \in 1..Len(ValChars) : ValChars[i] = c
-Values == {v \in Seqs(ValSet, VL) : IF v = <<>> THEN Chunk = 0 ELSE (CIdx(v[1]) + Len(v)) % NChunks = Chunk}
+Values == {v \in (IF Fam = "remx" THEN Seqs({"a", "b"}, VL + 2) ELSE Seqs(ValSet, VL)) : IF v = <<>> THEN Chunk = 0 ELSE (CIdx(v[1]) + Len(v)) % NChunks = Chunk}
 Offs == {-4, -2, -1, 0, 1, 2, 4}
 PatSet == Seqs({"a", "b", "*", "?", " "}, 2)
+\* extglob patterns whose alternatives are prefixes of one another: first-match-wins engines get `##` / `%%` wrong on them
+XPats == { <<"@(", "a", "|", "a", "b", ")">>, <<"*(", "a", "|", "a", "b", ")">>, <<"+(", "a", "|", "a", "b", ")">>, <<"?(", "a", ")", "*">>,
+           <<"@(", "b", "|", "a", "b", ")">>, <<"*(", "b", "|", "a", ")", "b">>, <<"a", "+(", "b", ")">>, <<"@(", "a", "|", "a", "a", ")", "b">> }
 Op(k, x, y, p, r) == [k |-> k, x |-> x, y |-> y, p |-> p, r |-> r]
 OpsOf(f) ==
   CASE f = "sub"  -> {Op("len", 0, 0, <<>>, <<>>)} \cup {Op("sub1", x, 0, <<>>, <<>>) : x \in Offs} \cup {Op("sub2", x, y, <<>>, <<>>) : x \in Offs, y \in Offs}
     [] f = "rem"  -> {Op(k, 0, 0, p, <<>>) : k \in {"rp", "rP", "rs", "rS"}, p \in PatSet}
+    [] f = "remx" -> {Op(k, 0, 0, p, <<>>) : k \in {"rp", "rP", "rs", "rS"}, p \in XPats}
     [] f = "rep"  -> {Op(k, 0, 0, p, r) : k \in {"rep1", "repA", "repP", "repS"}, p \in PatSet \ {<<>>}, r \in {<<"X">>, <<>>}}
     [] f = "case" -> {Op(k, 0, 0, <<>>, <<>>) : k \in {"up1", "upA", "lo1", "loA"}}
     [] f = "dflt" -> {Op(k, 0, 0, <<>>, <<"W">>) : k \in {"dflt", "dfltC", "asg", "asgC", "alt", "altC", "err", "errC"}}
@@ -23,6 +27,7 @@ Bindings(f) == IF f = "dflt" THEN {"unset", "null", "set"} ELSE {"set"}
 
 Row(v, b, op) == LET a == Apply(v, b, op) IN [v |-> v, b |-> b, op |-> op, st |-> a.st, val |-> a.val, asg |-> a.asg]
 Sane(v) == /\ (Fam = "rem" => \A p \in PatSet : RemovalSound(v, p))
+           /\ (Fam = "remx" => \A p \in XPats : RemovalSound(v, p))
            /\ (Fam = "sub" => \A o \in 0..4 : SubstrSound(v, o))
 
 VARIABLE done
